@@ -225,7 +225,9 @@ def install(E):
             return ite(cx["fired"], E.err_token(), Iface.nil())
         if method == "Deadline":
             ok = E.fresh_bool("ctx_has_deadline")
-            return (E.mk_time_ns(E.fresh_bv("ctx_deadline", 64)), ok)
+            dl = E.fresh_bv("ctx_deadline", 64)
+            E.ghost.setdefault("ctx_deadlines", []).append((ok, dl))
+            return (E.mk_time_ns(dl), ok)
         if method == "Value":
             return Iface.nil()
         raise Exception("context method %s" % method)
